@@ -149,9 +149,12 @@ class _StubInterconnect:
         self.p2p = master is not None
 
 
-_STUBBED = [(WB, "InterconnectShared"), (WB, "Crossbar"), (WB, "InterconnectPointToPoint"),
-            (AXI, "AXILiteInterconnectShared"), (AXI, "AXILiteCrossbar"), (AXI, "AXILiteInterconnectPointToPoint"),
-            (AXI, "AXIInterconnectShared"), (AXI, "AXICrossbar"), (AXI, "AXIInterconnectPointToPoint")]
+# the point-to-point classes are NOT stubbed: they are cheap (`master.connect(slave)`) and the selection oracle
+# samples the slave's request lines on the real netlist (see `p2p_select_bits`)
+_STUBBED = [(WB, "InterconnectShared"), (WB, "Crossbar"),
+            (AXI, "AXILiteInterconnectShared"), (AXI, "AXILiteCrossbar"),
+            (AXI, "AXIInterconnectShared"), (AXI, "AXICrossbar")]
+P2P_CLASSES = (WB.InterconnectPointToPoint, AXI.AXILiteInterconnectPointToPoint, AXI.AXIInterconnectPointToPoint)
 
 
 @contextlib.contextmanager
@@ -176,9 +179,11 @@ class BusRun:
     """One real SoCBusHandler driven by a history.  `aw` may be a toy width: the constructor only accepts 32/64,
     every later use reads `self.address_width`, which is overridden after construction."""
 
-    def __init__(self, aw, dw, cfg=None):
+    def __init__(self, aw, dw, cfg=None, raw=False):
         cfg = dict(DEFAULT_CFG, **(cfg or {}))
         self.cfg = cfg
+        self.raw = raw          # raw: a SoCError is caught and the handler is used on AS THE CODE LEFT IT (no roll-back)
+        self.stale = []         # names of regions / IO regions present after a refused call that were not there before
         self.aw, self.dw = aw, dw
         self.wb = dw // 8
         self.sh = self.wb.bit_length() - 1
@@ -264,7 +269,10 @@ class BusRun:
             v = "ok"
         except SoCError:
             envshim.quiet_stderr()
-            self._restore(snap)
+            if self.raw:
+                self.stale += [n for n in list(bus.regions) + list(bus.io_regions) if n not in snap[0] and n not in snap[1]]
+            else:
+                self._restore(snap)
             v = "rej"
         except Exception as e:      # anything else is outside the modelled behaviour: reported as an alarm
             envshim.quiet_stderr()
@@ -284,12 +292,10 @@ class BusRun:
                     bus.do_finalize()
             self.fin = "ok"
             ic = bus._interconnect
-            if ic is not None and not real_hw:
-                self.p2p = ic.p2p
-                if not ic.p2p:
+            if ic is not None:
+                self.p2p = isinstance(ic, P2P_CLASSES)
+                if not self.p2p and not real_hw:
                     self.decoders = [(n, fn) for n, (fn, _) in zip(bus.slaves.keys(), ic.slaves)]
-            elif ic is not None:
-                self.p2p = isinstance(ic, WB.InterconnectPointToPoint)
         except SoCError:
             envshim.quiet_stderr()
             self.fin = "rej"
@@ -311,7 +317,9 @@ class BusRun:
             b(bus.io_regions_check)])
 
     def result_str(self):
-        return " # ".join([" ".join(self.verdicts), self.fin or "-", self.state_str()])
+        fin = "p2p" if (self.fin == "ok" and self.p2p) else (self.fin or "-")     # which interconnect class was built
+        return " # ".join([" ".join(self.verdicts), fin, self.state_str()] +
+                          ([" ".join(str(nid(n)) for n in self.stale)] if self.raw else []))
 
 
 def bus_line(aw, dw, ops, cfg=None):
@@ -428,14 +436,70 @@ def eval_decoder(fn, width, addrs):
     return out
 
 
-def decoders_oracle(run, bits, addrs, known=()):
+def p2p_select_bits(run, addrs):
+    """The point-to-point interconnect built by the real do_finalize, on the real netlist: drive the master's
+    request with every word address of `addrs` and sample whether the request reaches the slave (and with which
+    address).  Returns ({slave: [bit]}, alarm | None)."""
+    from netlist import Netlist
+    bus = run.bus
+    ic = bus._interconnect
+    (mn, m), = list(bus.masters.items())[:1]
+    (sn, s), = list(bus.slaves.items())[:1]
+    nl = Netlist(ic)
+    out, alarm = [], None
+    wish = hasattr(m, "cyc")
+    if wish:
+        nl.set(m.cyc, 1)
+        nl.set(m.stb, 1)
+    else:
+        nl.set(m.ar.valid, 1)
+    for a in addrs:
+        if wish:
+            nl.set(m.adr, a)
+            nl.settle()
+            hit, seen = int(bool(nl.getu(s.cyc)) and bool(nl.getu(s.stb))), nl.getu(s.adr)
+            want = a & (2 ** len(s.adr) - 1)
+        else:
+            nl.set(m.ar.addr, a * run.wb)
+            nl.settle()
+            hit, seen = int(bool(nl.getu(s.ar.valid))), nl.getu(s.ar.addr)
+            want = (a * run.wb) & (2 ** len(s.ar.addr) - 1)
+        out.append(hit)
+        if hit and seen != want and alarm is None:
+            alarm = "point-to-point: master address 0x%x reaches slave %s as 0x%x" % (a, sn, seen)
+    return {sn: out}, alarm
+
+
+P2P_FINDING = "C06-p2p-partial-region-origin0"      # open finding of C06 (the shortcut ignores the region SIZE)
+
+
+def decoders_oracle(run, bits, addrs, known=(), p2p=False):
     """`bits[name]` = accept bit per address in `addrs` for every slave (after a successful do_finalize):
     exactness w.r.t. the power-of-two window and at most one non-linker slave per address.  Regions smaller than
-    one bus word are excluded when the finding C13-decoder-subword is listed."""
+    one bus word are excluded when the finding C13-decoder-subword is listed.  `p2p`: the bits were sampled on
+    a point-to-point interconnect (no decoder exists); a slave region at origin 0 smaller than the address space
+    is excluded while C06's finding C06-p2p-partial-region-origin0 is listed open."""
     bus = run.bus
     wb = run.wb
     names = list(bits.keys())
     sub_ok = "C13-decoder-subword" in known
+    if p2p:
+        for n in names:
+            r = bus.regions.get(n)
+            if r is None:
+                return "point-to-point slave %s has no region" % n
+            if r.origin == 0 and win(r.size) < 2 ** run.aw and P2P_FINDING in known:
+                return None
+            if not r.decode or not (win(r.size) >= wb or not sub_ok):
+                continue
+            for a, v in zip(addrs, bits[n]):
+                want = int(r.origin <= a * wb < r.origin + win(r.size))
+                if v != want:
+                    return ("slave %s [0x%x,+0x%x) is wired point-to-point (no address decoder was built): word address "
+                            "0x%x %s the slave, its window says %s" % (
+                                n, r.origin, win(r.size), a, "reaches" if v else "does not reach",
+                                "inside" if want else "outside"))
+        return None
 
     def demanded(r):
         return not r.linker and (win(r.size) >= wb or not sub_ok)
@@ -518,7 +582,7 @@ def gen_bus_cfg(rng, aw, hw=False):
     return cfg
 
 
-def gen_bus_history(rng, nops=None, cfg=None, hw=False):
+def gen_bus_history(rng, nops=None, cfg=None, hw=False, raw=False):
     """Generate a history adaptively against the real handler; returns (aw, dw, ops, BusRun after the history).
     Oracles are NOT evaluated here (see run_bus_history)."""
     if cfg is None:
@@ -526,7 +590,7 @@ def gen_bus_history(rng, nops=None, cfg=None, hw=False):
         dw = rng.choice([32, 32, 32, 64, 64, 128, 128, 256, 512])
     else:
         aw, dw = cfg
-    run = BusRun(aw, dw, gen_bus_cfg(rng, aw, hw))
+    run = BusRun(aw, dw, dict(gen_bus_cfg(rng, aw, hw), reserved=[]) if raw else gen_bus_cfg(rng, aw, hw), raw=raw)
     nops = nops or rng.randint(1, 12)
     sizes = size_pool(aw)
     top = 2 ** aw
@@ -691,6 +755,20 @@ def registered_oracle(bus, name, io, o, sz, c, l, d):
     return None
 
 
+def io_consistency_oracle(bus, name, check_was_on, ios_before):
+    """A fixed-origin bus region accepted while `io_regions_check` is on is uncached iff it lies inside the
+    declared extent of an IO region (recomputed from origins/sizes, not by the handler's helpers)."""
+    r = bus.regions.get(name)
+    if r is None or not check_was_on or r.origin is None:
+        return None
+    inside = any(io.origin <= r.origin and r.origin + r.size <= io.origin + io.size for io in ios_before)
+    if inside and r.cached:
+        return "cached region %s [0x%x,+0x%x) was accepted inside an IO region" % (name, r.origin, r.size)
+    if not inside and not r.cached:
+        return "uncached region %s [0x%x,+0x%x) was accepted outside every IO region" % (name, r.origin, r.size)
+    return None
+
+
 def run_bus_history(aw, dw, ops, known=(), rng=None, with_oracles=True, cfg=None):
     """Replay `ops` on a fresh real handler with all oracles armed.
     Returns dict(result=<canonical text>, alarm=<oracle message or None>, dec=[(line, real bits)], nontrivial=int)."""
@@ -718,6 +796,7 @@ def run_bus_history(aw, dw, ops, known=(), rng=None, with_oracles=True, cfg=None
         taken = rq is not None and (name in bus.regions or name in bus.io_regions)
         taken_ms = (op[0] == "M" and name in bus.masters) or (op[0] == "S" and name in bus.slaves)
         masters0, slaves0 = list(bus.masters.items()), list(bus.slaves.items())
+        check0, ios0 = bool(bus.io_regions_check), list(bus.io_regions.values())
         v = run.apply(tuple(op))
         if v == "ok":
             nontrivial += 1
@@ -734,6 +813,8 @@ def run_bus_history(aw, dw, ops, known=(), rng=None, with_oracles=True, cfg=None
             if msg is None and rq is not None and rq[2] is not None:
                 full = op[2:] if op[0] == "R" else (0,) + tuple(op[2:])
                 msg = registered_oracle(bus, name, *full)
+                if msg is None and not rq[1]:
+                    msg = io_consistency_oracle(bus, name, check0, ios0)
             if msg:
                 alarm = "after op %d %r: %s" % (k, list(op), msg)
     fin = run.finalize(real_hw=False)
@@ -756,8 +837,81 @@ def run_bus_history(aw, dw, ops, known=(), rng=None, with_oracles=True, cfg=None
             msg = decoders_oracle(run, bits, addrs, known)
             if msg:
                 alarm = "after do_finalize: " + msg
+        if not exhaustive:
+            dec.append(sel_line(aw, dw, ops, run.cfg, addrs, [(n, bits[n]) for n, _ in run.decoders]))
+    elif fin == "ok" and run.p2p:
+        # point-to-point: no decoder functions exist; sample the built hardware
+        sn = next(iter(run.bus.slaves))
+        addrs, exhaustive = dec_addresses(run, [run.bus.regions[sn]] if sn in run.bus.regions else [], rng,
+                                          exhaustive_limit=1024)
+        try:
+            bits, msg = p2p_select_bits(run, addrs)
+        except Exception as e:
+            bits, msg = None, "sampling the point-to-point interconnect raised %s: %s" % (type(e).__name__, str(e)[:120])
+        if bits is not None:
+            dec.append(sel_line(aw, dw, ops, run.cfg, addrs, list(bits.items())))
+            msg = msg or decoders_oracle(run, bits, addrs, known, p2p=True)
+        if with_oracles and alarm is None and msg:
+            alarm = "after do_finalize: " + msg
     return {"result": run.result_str(), "alarm": alarm, "dec": dec, "nontrivial": nontrivial, "fin": fin,
             "p2p": run.p2p, "verdicts": list(run.verdicts)}
+
+
+def run_busraw_history(aw, dw, ops, cfg=None):
+    """The same calls WITHOUT roll-back: after a refused call the real handler is used on as the code left it
+    (a caller that catches SoCError).  No oracle runs here except 'no crash'; the comparison is with the model's
+    `RawH` (driver call `busraw`), whose theorems say what survives.  `stale` on the real side = names that
+    appeared in a dictionary during a refused call."""
+    run = BusRun(aw, dw, cfg, raw=True)
+    alarm = None
+    nontrivial = 0
+    for k, op in enumerate(ops):
+        v = run.apply(tuple(op))
+        nontrivial += v == "rej"
+        if v.startswith("crash") and alarm is None:
+            alarm = "op %d %r raised %s" % (k, list(op), v)
+        if alarm is None:
+            # full-strength property on the non-rolled-back object (theorem rejected_ops_keep_all_slave_regions_disjoint):
+            # accepted or refused, every call leaves pairwise disjoint windows, and a refusal leaves no region behind
+            msg = regions_oracle(run.bus)
+            if msg is None and v == "rej" and run.stale:
+                msg = "the refused call left %s registered" % run.stale
+            if msg:
+                alarm = "after %s op %d %r (no roll-back): %s" % ("refused" if v == "rej" else "accepted", k, list(op), msg)
+    fin = run.finalize(real_hw=False)
+    if fin.startswith("crash") and alarm is None:
+        alarm = "do_finalize raised " + fin
+    return {"result": run.result_str(), "alarm": alarm, "nontrivial": nontrivial, "fin": fin, "stale": list(run.stale)}
+
+
+def gen_busraw_history(rng):
+    """Histories for the raw mode: the adaptive generator running on the non-rolled-back handler, half of the time
+    seeded with the shape 'refused overlapping slave region, then add_slave(name) without region'."""
+    if rng.random() < 0.5:
+        return gen_bus_history(rng, raw=True)
+    aw = rng.choice([32, 32, 12, 16, 64])
+    dw = rng.choice([32, 64, 128])
+    gran = rng.choice([0x100, 0x1000]) if aw >= 32 else rng.choice([0x10, 0x40])
+    run = BusRun(aw, dw, dict(DEFAULT_CFG, ic=rng.choice(["shared", "crossbar"])), raw=True)
+    base = gran * rng.choice([0, 2, 4])
+    a = ("S", 1, base, gran * rng.choice([1, 2, 2, 3]), 1, 0, 1)
+    bo = base + gran * rng.choice([0, 1, 1, 2, 3])
+    bop = ("S", 2, bo, gran * rng.choice([1, 1, 2]), 1, int(rng.random() < 0.1), 1) if rng.random() < 0.7 else \
+          ("R", 2, int(rng.random() < 0.3), bo, gran, 1, 0, 1)
+    ops = [("C", 0), a, bop]
+    tail = [("S", 2), ("M", None), ("R", 3, 0, None, gran, 1, 0, 1), ("R", 4, 0, base + 8 * gran, gran, 1, 0, 1),
+            ("S", 5, None, gran, 1, 0, 1), ("S", 2, bo + 4 * gran, gran, 1, 0, 1), ("M", 1)]
+    rng.shuffle(tail)
+    ops += tail[:rng.randint(1, 5)]
+    for op in ops:
+        run.apply(op)
+    return aw, dw, ops, run
+
+
+def sel_line(aw, dw, ops, cfg, addrs, named_bits):
+    """Driver call `sel` (which slave does the built interconnect select at which address) + the real answer."""
+    line = "sel" + bus_line(aw, dw, ops, cfg)[3:] + " ; A " + " ".join(map(str, addrs))
+    return line, " ".join("%d:%s" % (nid(n), "".join(map(str, v))) for n, v in named_bits)
 
 
 def hw_decoder_check(aw, dw, ops, known=(), cfg=None):
@@ -768,9 +922,14 @@ def hw_decoder_check(aw, dw, ops, known=(), cfg=None):
     for op in ops:
         run.apply(tuple(op))
     fin = run.finalize(real_hw=True)
-    if fin != "ok" or run.bus._interconnect is None or run.p2p:
+    if fin != "ok" or run.bus._interconnect is None:
         return None, None, fin
     bus = run.bus
+    if run.p2p:
+        addrs = list(range(2 ** max(aw - run.sh, 0)))
+        bits, msg = p2p_select_bits(run, addrs)
+        return (msg or decoders_oracle(run, bits, addrs, known, p2p=True),
+                {n: "".join(map(str, v)) for n, v in bits.items()}, fin)
     nl = Netlist(bus._interconnect)
     masters = list(bus.masters.values())
     m = masters[0]
@@ -910,12 +1069,19 @@ class LocRun:
                 elif op[0] == "A":
                     h.add("l%d" % op[1], op[2], use_loc_if_exists=bool(op[3]))
                 elif op[0] == "P":
-                    h.address_map("l%d" % op[1], None)
+                    got = h.address_map("l%d" % op[1], None)
+                    if got != h.locs.get("l%d" % op[1]) or isinstance(got, bool) or not isinstance(got, int):
+                        self.crash = self.crash or ("address_map(l%d) answered %r, the page granted to that name is %r" % (
+                            op[1], got, h.locs.get("l%d" % op[1])))
                 elif op[0] == "E":
                     h.enable()
             v = "ok"
         except SoCError:
             envshim.quiet_stderr()
+            # a refused location request must leave no trace (SoCLocHandler.add checks before it writes): the
+            # transactional model is then also the model of the non-rolled-back object
+            if dict(h.locs) != snap[0] or list(h.locs) != list(snap[0]):
+                self.crash = self.crash or "refused %r left locs modified: %r -> %r" % (list(op), snap[0], dict(h.locs))
             h.locs = snap[0]
             v = "rej"
         except Exception as e:
@@ -1019,7 +1185,7 @@ def run_loc_history(kind, params, ops, reserved=(), via_soc=False):
             if v.startswith("crash") and alarm is None:
                 alarm = "op %d %r raised %s" % (k, op, v)
             if alarm is None:
-                msg = loc_oracle(run.h, n_locs)
+                msg = run.crash or loc_oracle(run.h, n_locs)
                 if msg is None and any(run.h.locs.get(n) != x for n, x in before.items()):
                     msg = "a granted location was changed or withdrawn: %r -> %r" % (before, run.h.locs)
                 if msg is None and v == "ok" and op[0] == "A" and op[2] is not None and not (
@@ -1244,6 +1410,18 @@ def cm_oracle(run, all_entries):
         want = tuple(pins_of(u, sb)[1])
         if pins != want:
             return "constraint of entry %s sub %s carries pins %s, its table entry says %s" % (u, sb, pins, want)
+    # no two live requests share a pin, whenever the table itself assigns disjoint pins to its signals
+    # (connector pins j1:k may be listed by two entries of a generated table: then nothing is demanded)
+    table_pins = []
+    for u, (_, _, subs) in run.meta.items():
+        table_pins += [p for sb in (subs or (None,)) for p in pins_of(u, sb)[1]]
+    if len(set(table_pins)) == len(table_pins):
+        seen = {}
+        for u, sb, pins in cons:
+            for p in pins:
+                if p in seen and seen[p] != (u, sb):
+                    return "pin %s is constrained for two live requests: %s and %s" % (p, seen[p], (u, sb))
+                seen[p] = (u, sb)
     # width of every granted signal = number of pins of its own entry (from the table, not from the object)
     for res, obj in cm.matched:
         u = run.entries[id(res)]
@@ -1497,6 +1675,13 @@ def _one_history(kind, rng, known, out):
                         "input": {"kind": "bus", "aw": aw, "dw": dw, "cfg": cfg, "ops": [list(o) for o in ops]},
                         "nontrivial": res["nontrivial"], "dec": res["dec"], "fin": res["fin"], "p2p": res["p2p"],
                         "nops": len(ops)})
+        elif kind == "busraw":
+            aw, dw, ops, _run = gen_busraw_history(rng)
+            cfg = _run.cfg
+            res = run_busraw_history(aw, dw, ops, cfg)
+            out.append({"kind": "busraw", "line": "busraw" + bus_line(aw, dw, ops, cfg)[3:], "real": res["result"],
+                        "alarm": res["alarm"], "nontrivial": res["nontrivial"], "nops": len(ops), "stale": res["stale"],
+                        "input": {"kind": "busraw", "aw": aw, "dw": dw, "cfg": cfg, "ops": [list(o) for o in ops]}})
         elif kind == "loc":
             k, params, ops, reserved, via_soc = gen_loc_history(rng)
             res = run_loc_history(k, params, ops, reserved, via_soc)
@@ -1535,6 +1720,10 @@ def rerun_input(inp, known=()):
         ops = [tuple(o) for o in inp["ops"]]
         res = run_bus_history(inp["aw"], inp["dw"], ops, known, cfg=inp.get("cfg"))
         return bus_line(inp["aw"], inp["dw"], ops, inp.get("cfg")), res["result"], res["alarm"], res
+    if k == "busraw":
+        ops = [tuple(o) for o in inp["ops"]]
+        res = run_busraw_history(inp["aw"], inp["dw"], ops, inp.get("cfg"))
+        return "busraw" + bus_line(inp["aw"], inp["dw"], ops, inp.get("cfg"))[3:], res["result"], res["alarm"], res
     if k == "loc":
         ops = [tuple(o) for o in inp["ops"]]
         reserved = [tuple(r) for r in inp.get("reserved", [])]
